@@ -399,7 +399,12 @@ class TopoModel(Model):
             for nn, i in self.ports():
                 if i.type == InterfaceType.DedicatedPort and not i.get_peers():
                     ev.append(('undo_old', 'sub', (nn, i.name)))
+                    # ... and with an unrelated addition made through another handle in between
+                    ev.append(('undo_old', 'sub-other-added', (nn, i.name)))
                     break
+            for s in tops[:1]:
+                if len(free) >= 2:
+                    ev.append(('undo_old', 'connect-other-added', s, self._pref(free[0]), self._pref(free[1])))
             for n in sorted(names):
                 if nodes[n].type == NodeType.VM:
                     ev.append(('undo_old', 'component', n))
@@ -537,6 +542,20 @@ class TopoModel(Model):
                 self._undo_stage = 1
                 old.remove_child_interface(name='subU')
                 self.handles['port'] = old
+            elif what == 'sub-other-added':
+                h1, h2 = self.port(*ev[2]), self.port(*ev[2])
+                h1.add_child_interface(name='subU', labels=Labels(vlan='300'))
+                h2.add_child_interface(name='subV', labels=Labels(vlan='301'))
+                self._undo_stage = 1
+                h1.remove_child_interface(name='subU')
+                self.handles['port'] = h1
+            elif what == 'connect-other-added':
+                h1, h2 = self.service(ev[2]), self.service(ev[2])
+                h1.connect_interface(self.port(*ev[3]))
+                h2.connect_interface(self.port(*ev[4]))
+                self._undo_stage = 1
+                h1.disconnect_interface(self.port(*ev[3]))
+                self.handles['service'] = h1
             elif what == 'component':
                 old, new = self.node(ev[2]), self.node(ev[2])
                 new.add_component(name='cU', model_type=ComponentModelType.SmartNIC_ConnectX_6)
@@ -976,7 +995,21 @@ def c08_check(model: TopoModel, pre: Raw, ev, outcome):
     if k == 'undo_old':
         stage = getattr(model, '_undo_stage', 0)
         post = model.raw()
-        if stage == 2:
+        if stage == 2 and ev[1] in ('sub-other-added', 'connect-other-added'):
+            # reference: only the surviving addition, made through a fresh handle on the pre-state
+            snap_now = model.snapshot()
+            model.restore(model._pre_snap)
+            if ev[1] == 'sub-other-added':
+                model.port(*ev[2]).add_child_interface(name='subV', labels=Labels(vlan='301'))
+            else:
+                model.service(ev[2]).connect_interface(model.port(*ev[4]))
+            want = model.raw().canon()
+            model.restore(snap_now)
+            if post.canon() != want:
+                v.append((f'c08/undo-through-older-handle/{ev[1]}/model-differs',
+                          f'{ev}: after taking back one of two additions the model is not "pre-state + the other addition"'))
+            v += _handle_coherence(model, post, f'undo-through-older-handle/{ev[1]}', ev)
+        elif stage == 2:
             # the change was taken back through a handle that predates it: the model is what it was, and that handle agrees
             # with a fresh lookup
             if post.exact() != pre.exact():
